@@ -311,10 +311,10 @@ KM = "kamstrup"
 S("C09", "pinned defect: meter-type literal ...256", "R1", (KM, 'if x.obis == "1.1.96.1.1.255"', 'if x.obis == "1.1.96.1.1.256"'))
 S("C09", "pinned defect: startswith on the element container", "R2", (KM, "        and isinstance(meter_type.value, str)\n        and meter_type.value.startswith(\"685\")", "        and meter_type.startswith(\"685\")"))
 S("C09", "pinned defect: multiplication by 10**-n", "R4", (KM, "                    dictionary[element_name] = (\n                        measure.value * (10**scale)\n                        if scale > 0\n                        else measure.value / (10**-scale)\n                    )", "                    dictionary[element_name] = measure.value * (10**scale)"))
-S("C09", "CT table currents -3 -> -2", "R3", (KM, '    "1.1.51.7.0.255": -3,  # IL2', '    "1.1.51.7.0.255": -2,  # IL2'))
+S("C09", "CT table currents -3 -> -2", "R2|R3", (KM, '    "1.1.51.7.0.255": -3,  # IL2', '    "1.1.51.7.0.255": -2,  # IL2'))
 S("C09", "energy key typo", "R3", (KM, '    "1.1.3.8.0.255": 1,  # R12\n    "1.1.4.8.0.255": 1,  # R34\n}\n\n_field_scaling_ct_meter', '    "1.1.3.8.1.255": 1,  # R12\n    "1.1.4.8.0.255": 1,  # R34\n}\n\n_field_scaling_ct_meter'))
 S("C09", 'startswith("685") -> ("686")', "R2", (KM, 'meter_type.value.startswith("685")', 'meter_type.value.startswith("686")'))
-S("C09", "table selection inverted", "R3", (KM, "field_scaling = _field_scaling_ct_meter if is_ct_meter else _field_scaling_standard", "field_scaling = _field_scaling_standard if is_ct_meter else _field_scaling_ct_meter"))
+S("C09", "table selection inverted", "R2|R3", (KM, "field_scaling = _field_scaling_ct_meter if is_ct_meter else _field_scaling_standard", "field_scaling = _field_scaling_standard if is_ct_meter else _field_scaling_ct_meter"))
 S("C09", "meter type looked up by another code", "R2", (KM, 'if x.obis == "1.1.96.1.1.255"', 'if x.obis == "1.1.96.1.0.255"'))
 S("C09", "null padding fixed at four octets", "R5", (KM, '    "_NullData" / cosem.NullData,  # trim null-data between elements', '    "_NullData" / construct.Optional(construct.Const(b"\\x00\\x00\\x00\\x00")),'))
 S("C09", "APDU clock only when the list has none", "R5", (KM, "        dictionary[obis_map.FIELD_METER_DATETIME] = frame.information.DateTime.datetime\n", "        dictionary.setdefault(obis_map.FIELD_METER_DATETIME, frame.information.DateTime.datetime)\n"))
